@@ -6,11 +6,11 @@ CONSTANTS Depth, MaxInst
 VARIABLE hist
 vars == <<heap, objs, next, hist>>
 
-\* T: cells 1..18   target X8_01 (shots=10, flags=[1, 2]) ; G({a}, 2*q1) | 0 ; Vac | 1 ; K(l=[1, 2]) | 0 ; K2(W) | 1 ;
-\*                  variables M = [[{b}, 2]], v = {b}, W[1, 2] = {wv} (an array given as a whole by one parameter: elements wv_0_0, wv_0_1)
-\* P: cells 19..25  Vac | 0 ; H(5, 2*q0) | 1 ; variable N = [[3, 4]]
-\* E: cells 26..28  the caller's own array [[6, 7]], handed to every template call as the value of wv (the SAME object each time)
-InitHeap == [c \in 1..28 |->
+\* T: cells 1..19   target X8_01 (shots=10, flags=[1, 2]) ; G({a}, 2*q1) | 0 ; Vac | 1 ; K(l=[1, 2]) | 0 ; K2(W) | 1 ;
+\*                  variables M = [[{b}, 2]], v = {b}, Q = [[3, 4]] (no parameter), W[1, 2] = {wv} (an array given as a whole by one parameter: elements wv_0_0, wv_0_1)
+\* P: cells 20..26  Vac | 0 ; H(5, 2*q0) | 1 ; variable N = [[3, 4]]
+\* E: cells 27..29  the caller's own array [[6, 7]], handed to every template call as the value of wv (the SAME object each time)
+InitHeap == [c \in 1..29 |->
   CASE c = 1 -> [k |-> "op", name |-> "G", hasargs |-> TRUE, args |-> 2, kw |-> 3, modes |-> <<0>>]
     [] c = 2 -> [k |-> "list", xs |-> <<SymP("a"), Ref(13)>>]
     [] c = 3 -> [k |-> "dict", items |-> <<>>]
@@ -19,7 +19,7 @@ InitHeap == [c \in 1..28 |->
     [] c = 6 -> [k |-> "list", xs |-> <<>>]
     [] c = 7 -> [k |-> "dict", items |-> <<[key |-> "l", v |-> Ref(8)]>>]
     [] c = 8 -> [k |-> "list", xs |-> <<Num(1), Num(2)>>]
-    [] c = 9 -> [k |-> "dict", items |-> <<[key |-> "M", v |-> Ref(10)], [key |-> "v", v |-> SymP("b")], [key |-> "W", v |-> Ref(18)]>>]      \* variables of T
+    [] c = 9 -> [k |-> "dict", items |-> <<[key |-> "M", v |-> Ref(10)], [key |-> "v", v |-> SymP("b")], [key |-> "W", v |-> Ref(18)], [key |-> "Q", v |-> Ref(19)]>>]      \* variables of T
     [] c = 10 -> [k |-> "arr", rows |-> << <<SymP("b"), Num(2)>> >>]
     [] c = 11 -> [k |-> "dict", items |-> <<[key |-> "shots", v |-> Num(10)], [key |-> "flags", v |-> Ref(12)]>>]  \* target options of T
     [] c = 12 -> [k |-> "list", xs |-> <<Num(1), Num(2)>>]
@@ -31,24 +31,25 @@ InitHeap == [c \in 1..28 |->
     \*  are mutated in the histories, so they are kept as two cells throughout)
     [] c = 17 -> [k |-> "arr", rows |-> << <<SymP("wv_0_0"), SymP("wv_0_1")>> >>]
     [] c = 18 -> [k |-> "arr", rows |-> << <<SymP("wv_0_0"), SymP("wv_0_1")>> >>]
-    [] c = 19 -> [k |-> "op", name |-> "Vac", hasargs |-> FALSE, args |-> 0, kw |-> 0, modes |-> <<0>>]
-    [] c = 20 -> [k |-> "op", name |-> "H", hasargs |-> TRUE, args |-> 21, kw |-> 22, modes |-> <<1>>]
-    [] c = 21 -> [k |-> "list", xs |-> <<Num(5), [k |-> "rrt", r |-> 0]>>]        \* H(5, 2*q0) | 1 : a measured-register argument
-    [] c = 22 -> [k |-> "dict", items |-> <<>>]
-    [] c = 23 -> [k |-> "dict", items |-> <<[key |-> "N", v |-> Ref(24)]>>]                                        \* variables of P
-    [] c = 24 -> [k |-> "arr", rows |-> << <<Num(3), Num(4)>> >>]
-    [] c = 25 -> [k |-> "dict", items |-> <<>>]                                                                      \* target options of P
-    [] c = 26 -> [k |-> "dict", items |-> <<[key |-> "wv", v |-> Ref(27)]>>]                                       \* E: the caller's value
-    [] c = 27 -> [k |-> "arr", rows |-> << <<Num(6), Num(7)>> >>]
-    [] c = 28 -> [k |-> "dict", items |-> <<>>]]
+    [] c = 19 -> [k |-> "arr", rows |-> << <<Num(3), Num(4)>> >>]                  \* Q: an array variable of the template WITHOUT parameters
+    [] c = 20 -> [k |-> "op", name |-> "Vac", hasargs |-> FALSE, args |-> 0, kw |-> 0, modes |-> <<0>>]
+    [] c = 21 -> [k |-> "op", name |-> "H", hasargs |-> TRUE, args |-> 22, kw |-> 23, modes |-> <<1>>]
+    [] c = 22 -> [k |-> "list", xs |-> <<Num(5), [k |-> "rrt", r |-> 0]>>]        \* H(5, 2*q0) | 1 : a measured-register argument
+    [] c = 23 -> [k |-> "dict", items |-> <<>>]
+    [] c = 24 -> [k |-> "dict", items |-> <<[key |-> "N", v |-> Ref(25)]>>]                                        \* variables of P
+    [] c = 25 -> [k |-> "arr", rows |-> << <<Num(3), Num(4)>> >>]
+    [] c = 26 -> [k |-> "dict", items |-> <<>>]                                                                      \* target options of P
+    [] c = 27 -> [k |-> "dict", items |-> <<[key |-> "wv", v |-> Ref(28)]>>]                                       \* E: the caller's value
+    [] c = 28 -> [k |-> "arr", rows |-> << <<Num(6), Num(7)>> >>]
+    [] c = 29 -> [k |-> "dict", items |-> <<>>]]
 InitObjs == [n \in {"T", "P", "E"} |->
-  CASE n = "T" -> [kind |-> "template", lo |-> 1, hi |-> 18, ops |-> <<1, 4, 5, 14>>, vars |-> 9, opts |-> 11, params |-> {"a", "b", "wv_0_0", "wv_0_1"}]
-    [] n = "P" -> [kind |-> "program", lo |-> 19, hi |-> 25, ops |-> <<19, 20>>, vars |-> 23, opts |-> 25, params |-> {}]
-    [] n = "E" -> [kind |-> "value", lo |-> 26, hi |-> 28, ops |-> <<>>, vars |-> 26, opts |-> 28, params |-> {}]]
-Init == heap = InitHeap /\ objs = InitObjs /\ next = 29 /\ hist = <<>>
+  CASE n = "T" -> [kind |-> "template", lo |-> 1, hi |-> 19, ops |-> <<1, 4, 5, 14>>, vars |-> 9, opts |-> 11, params |-> {"a", "b", "wv_0_0", "wv_0_1"}]
+    [] n = "P" -> [kind |-> "program", lo |-> 20, hi |-> 26, ops |-> <<20, 21>>, vars |-> 24, opts |-> 26, params |-> {}]
+    [] n = "E" -> [kind |-> "value", lo |-> 27, hi |-> 29, ops |-> <<>>, vars |-> 27, opts |-> 29, params |-> {}]]
+Init == heap = InitHeap /\ objs = InitObjs /\ next = 30 /\ hist = <<>>
 InstNames == {"I1", "I2", "I3"}
 \* the whole-array parameter wv always gets the caller's array E (its elements at the time of the call)
-EArr == heap[27].rows[1]
+EArr == heap[28].rows[1]
 Envs == {[p \in {"a", "b", "wv_0_0", "wv_0_1"} |-> CASE p = "a" -> 3 [] p = "b" -> 8 [] p = "wv_0_0" -> EArr[1].n [] p = "wv_0_1" -> EArr[2].n],
          [p \in {"a", "b", "wv_0_0", "wv_0_1"} |-> CASE p = "a" -> -1 [] p = "b" -> 4 [] p = "wv_0_0" -> EArr[1].n [] p = "wv_0_1" -> EArr[2].n]}
 NInst == Cardinality(DOMAIN objs \cap InstNames)
@@ -61,7 +62,7 @@ Next == Len(hist) < Depth /\
   \/ \E p \in DOMAIN objs \ {"E"} : Match("T", p) /\ Log([act |-> "match", t |-> "T", p |-> p])
   \/ \E env \in Envs : NInst < MaxInst /\ LET new == IF NInst = 0 THEN "I1" ELSE IF NInst = 1 THEN "I2" ELSE "I3"
                                           IN Call("T", env, new) /\ Log([act |-> "call", t |-> "T", env |-> env, new |-> new])
-  \/ \E o \in (DOMAIN objs) \cap InstNames, k \in {"append_arg", "set_kw", "array_elem", "arg_array_elem", "set_var", "rename_op", "set_option", "append_option_list", "rrt_regref"}, i \in 1..4 :
+  \/ \E o \in (DOMAIN objs) \cap InstNames, k \in {"append_arg", "set_kw", "array_elem", "del_var", "opt_replace", "arg_array_elem", "set_var", "rename_op", "set_option", "append_option_list", "rrt_regref"}, i \in 1..4 :
          Mutate(o, k, i) /\ Log([act |-> "mutate", o |-> o, kind |-> k, i |-> i])
 \* ---- the property
 Pure == [][\A o \in DOMAIN objs : (hist' # hist /\ ReadOnly(hist'[Len(hist')])) => Content(heap', objs'[o]) = Content(heap, objs[o])]_vars
